@@ -27,7 +27,7 @@ def render_step(rng, pattern_ok=True):
     return {"s": "render", "solver": s, "method": m, "device": d, "pattern": pattern_ok and rng.random() < 0.15}
 
 
-def api_tail(rng, nreac, can_edit=True):
+def api_tail(rng, nreac, can_edit=True, can_export=True):
     """render; maybe touch; maybe render again; maybe edit + render"""
     steps = []
     if rng.random() < 0.4:
@@ -40,12 +40,12 @@ def api_tail(rng, nreac, can_edit=True):
     elif v < 0.55:
         steps.append(render_step(rng))
     if can_edit and nreac >= 2 and rng.random() < 0.3:
-        steps.append({"s": "rm_idx", "i": rng.randrange(nreac)})
+        steps.append({"s": "rm_idx", "i": 0})
         steps.append(render_step(rng))
     if rng.random() < 0.15:
         s, m, d = rng.choice(METHODS)
         steps.append({"s": "to_code", "solver": s, "method": m, "device": d})
-    if rng.random() < 0.12:
+    if can_export and rng.random() < 0.12:
         s, m, d = rng.choice(METHODS)
         steps.append({"s": "export", "solver": s, "method": m, "device": d})
     return steps
@@ -95,6 +95,8 @@ def fam_api_text(rng, idx, cfg, lists, fmt):
         net["allowed_species"] = [x for x in names if rng.random() < 0.8] or names
     if rng.random() < 0.3:
         net["rate_modifier"] = {str(10 + rng.randrange(len(ars))): "1.0e-10 * zeta"}
+    if rng.random() < 0.2:
+        net["shielding"] = rng.choice([{"H2": "L96Table"}, {"CO": "V09Table"}, {"N2": "L13Table"}, {"H2": "L96Table", "CO": "VB88Table"}])
     if rng.random() < 0.35 and not net.get("allowed_species"):
         a, b = rng.choice(names), rng.choice(names)
         net["ode_modifier"] = {a: {"factors": ["-1.0e-17 * nH"], "reactants": [[b]]}}
@@ -120,7 +122,9 @@ def fam_api_text(rng, idx, cfg, lists, fmt):
     if rng.random() < 0.25 and not net.get("ode_modifier") and len(names) > 3:
         # narrow the network after the fact; the property promises the same result as constructing it so
         steps.append({"s": "set_allowed", "names": [x for x in names if rng.random() < 0.85] or names})
-    steps += api_tail(rng, n, can_edit=False if net.get("ode_modifier") else True)
+    # (Network.export cannot serialise integer rate-modifier keys - a naunet limitation outside C17)
+    steps += api_tail(rng, n, can_edit=not (net.get("ode_modifier") or net.get("allowed_species")),
+                      can_export=not net.get("rate_modifier"))
     for st in steps:
         if st["s"] == "touch":
             st["where"] = rng.choice(names)
@@ -281,6 +285,23 @@ def fam_api_native_grain(rng, idx, gprefix):
             "net": net, "steps": steps}
 
 
+_LEEDS_CACHE = {}
+
+
+def fam_api_leeds(rng, idx):
+    """Walsh-style ('leeds') fixed-width network: every species is parsed with the 'G' surface prefix."""
+    if "lines" not in _LEEDS_CACHE:
+        src = os.path.join(K.REPO, "tests", "data", "rate12_HO.leeds")
+        _LEEDS_CACHE["lines"] = [ln for ln in open(src).read().splitlines() if ln.strip() and ln[122:125].strip() == "1"]
+    lines = rng.sample(_LEEDS_CACHE["lines"], rng.randint(4, 12))
+    net = dict(MIXED, species_kwargs={"surface_prefix": "G"})
+    if rng.random() < 0.4:
+        net["shielding"] = rng.choice([{"H2": "L96Table"}, {"CO": "V09Table"}, {"N2": "L13Table"}, {"CO": "VB88Table"}])
+    steps = [{"s": "new"}, {"s": "add_file", "file": "net.leeds", "fmt": "leeds"}] + api_tail(rng, len(lines))
+    return {"id": f"api-leeds-{idx}", "family": "api-leeds", "entry": "api", "name": "simproj",
+            "files": {"net.leeds": "\n".join(lines) + "\n"}, "net": net, "steps": steps}
+
+
 COOLING_NEEDS = {
     "CIC_HI": ["H", "e-"], "CIC_HeI": ["He", "e-"], "CIC_HeII": ["He+", "e-"], "CIC_He_2S": ["He+", "e-"],
     "RC_HII": ["H+", "e-"], "RC_HeI": ["He+", "e-"], "RC_HeII": ["He+", "e-"], "RC_HeIII": ["He++", "e-"],
@@ -343,6 +364,8 @@ def build_library(seed, tier):
         lib.append(fam_api_native_grain(rng, i, gprefix=False))
         lib.append(fam_api_native_grain(rng, i, gprefix=True))
         lib.append(fam_api_cooling(rng, i))
+        if i % 2 == 0:
+            lib.append(fam_api_leeds(rng, i))
     lib.append(fam_krome_primordial(rng, 0, "api"))
     lib.append(fam_krome_primordial(rng, 0, "cli"))
     lib.append(fam_empty(rng, 0))
